@@ -432,6 +432,94 @@ def run_twostep(ctx, drv, case):
     return ck.ok
 
 
+# ------------------------------------------------------------------ part B2: several large component grids within ONE refinement step
+def gen_samestep(ctx, thorough):
+    """two refinement steps; in each the SAME operation evaluates 2-3 different component grids with 200-320 points that share grid
+    points but give them different neighbours (e.g. level (3,5)-like followed by (4,4)- and (5,3)-like) before `post_processing`"""
+    r = ctx.rng
+    dim = 2
+
+    def grid(lx, ly):
+        st = [[F(i, 2 ** lx) for i in range(2 ** lx + 1)], [F(i, 2 ** ly) for i in range(2 ** ly + 1)]]
+        for _ in range(r.randint(0, 2)):          # a few extra nodes: non-uniform, still < 330 points
+            d = r.randrange(dim)
+            k = r.randrange(len(st[d]) - 1)
+            st[d].insert(k + 1, (st[d][k] + st[d][k + 1]) / 2)
+        return st
+    shapes = r.sample([(3, 5), (4, 4), (5, 3)], r.choice([2, 2, 3]))
+    step1 = [grid(*sh) for sh in shapes]
+    step2 = []
+    for st in step1:
+        st2 = [list(t) for t in st]
+        d = r.randrange(dim)
+        k = r.randrange(len(st2[d]) - 1)
+        st2[d].insert(k + 1, (st2[d][k] + st2[d][k + 1]) / 2)
+        step2.append(st2)
+    M = r.choice([20, 30])
+    data = c16.gen_data(r, dim, step2[0], M, res=128)
+    if r.random() < 0.6:
+        data = [[c if c != 1 else F(r.randint(64, 127), 128) for c in x] for x in data]
+    enc = lambda grids: [[[frac_str(c) for c in t] for t in st] for st in grids]
+    return {"kind": "samestep", "dim": dim, "lam": frac_str(r.choice(c16.LAMS)), "lumped": True,
+            "classes": [r.choice([-1, 1]) for _ in range(M)] if r.random() < 0.4 else None,
+            "steps": [enc(step1), enc(step2)], "data": [[frac_str(c) for c in x] for x in data]}
+
+
+def run_samestep_once(case, reuse):
+    from sparseSpACE.ComponentGridInfo import ComponentGridInfo
+    op, g = new_dimwise_op(case, reuse)
+    cont = c16._Container()
+    dim = case["dim"]
+    op.init_dimension_wise(g, g, cont, 1, [5] * dim, np.zeros(dim), np.ones(dim))
+    for step in case["steps"]:
+        op.initialize_evaluation_dimension_wise(cont)
+        for n, grid in enumerate(step):
+            st = [[F(c) for c in t] for t in grid]
+            levels = [[node_level(c) for c in t] for t in st]
+            lvec = tuple(len(t) for t in st) + (n,)          # a distinct key per component grid of the step
+            op.calculate_operation_dimension_wise(c16.fl(st), levels, ComponentGridInfo(lvec, 1))
+        op.post_processing()
+    return op
+
+
+def run_samestep(ctx, drv, case):
+    ck = c16.Checker(ctx, drv)
+    try:
+        data = [[F(c) for c in x] for x in case["data"]]
+        signs = [F(c) for c in case["classes"]] if case["classes"] is not None else [F(1)] * len(data)
+        tags = {"kind": "samestep", "dim": case["dim"], "classes": case["classes"] is not None}
+        grids = [[[F(c) for c in t] for t in st] for step in case["steps"] for st in step]
+        brefs = [b_ref(st, data, signs) for st in grids]
+        ops = {}
+        for reuse in (False, True):
+            op = run_samestep_once(case, reuse)
+            ops[reuse] = op
+            bs = [e[1] for e in op.rec if e[0] == "B"]
+            for n, (b, br) in enumerate(zip(bs, brefs)):
+                if not vec_near(b, br, 1e-12):
+                    k = next(i for i in range(len(br)) if not near(b[i], br[i], 1e-12))
+                    ck.viol("rhs-large-grid-is-sample-mean", dict(tags, reuse=reuse, grid_in_history=n, first_of_step=n in (0, len(case["steps"][0]))),
+                            dict(case, step=n), {"entry": k, "impl": float(b[k]), "sample_mean": str(br[k]), "points": len(br)})
+                    break
+                ctx.count("samestep_grids_%s" % ("ge_200" if len(br) >= 200 else "lt_200"))
+            replay_on_model(ck, drv, case, op, reuse, "reuse-%s" % ("on" if reuse else "off"))
+        b_on = [e[1] for e in ops[True].rec if e[0] == "B"]
+        b_off = [e[1] for e in ops[False].rec if e[0] == "B"]
+        for n, (x, y) in enumerate(zip(b_on, b_off)):
+            if not vec_near(x, y, 1e-12):
+                ck.viol("reuse-changes-rhs", dict(tags, cause="unexplained", grid_ge_200=len(x) >= 200), dict(case, step=n),
+                        {"max_abs_diff_rhs": float(np.max(np.abs(x - y)))})
+                break
+        for key in ops[True].surpluses:
+            if not alpha_near(ops[True].surpluses[key], ops[False].surpluses[key]):
+                ck.viol("reuse-changes-surpluses", dict(tags, cause="unexplained", grid_ge_200=True), case, {"grid": list(key)})
+                break
+    except Exception:
+        ck.ok = False
+        ctx.violation("exception", {"kind": "samestep"}, case, {"traceback": traceback.format_exc()[-1500:]})
+    return ck.ok
+
+
 # ------------------------------------------------------------------ part C: uniform schemes, reuse on / off
 def gen_uniform(ctx, thorough):
     r = ctx.rng
@@ -680,7 +768,7 @@ def replay_keys(ctx, drv, case):
 MALFORMED = [("grid 0,1/2,1 1", "bad-op"), ("init 1 0 1/2 - 0;0", "assert"), ("init 2 0 1/2 - 0", "bad-op"), ("post", "bad-op"), ("foo", "bad-op"),
              ("interp small 0,1/2,1 1 2", "assert"), ("key 1/2,0,1 1/2,0", "bad-op")]
 
-RUNNERS = {"history": run_history, "twostep": run_twostep, "uniform": run_uniform, "interp": run_interp, "urhs": run_urhs}
+RUNNERS = {"history": run_history, "twostep": run_twostep, "uniform": run_uniform, "interp": run_interp, "urhs": run_urhs, "samestep": run_samestep}
 
 
 def run(ctx):
@@ -689,6 +777,8 @@ def run(ctx):
                 "boundary samples, with/without classes, lmin 1-2, lmax-lmin 1-2 (thorough: runs reaching component grids >= 200 points); "
                 "(twostep) two consecutive evaluations of 2-D grids with >= 200 points, the second a refinement of the first -- the right-hand-side reuse "
                 "branch; (uniform) StandardCombi schemes reuse on vs off; (interp) small-grid and large-grid interpolation branches on the same grid; "
+                "(samestep) the same operation evaluates 2-3 different component grids with 200-320 points per refinement step, two steps, reuse off and on: "
+                "every right-hand side vs the signed sample mean and the model; "
                 "(urhs) uniform calculate_B with class labels on grids below and above 200 points vs signed sample mean / model / the other branch's computation; "
                 "(keys) cache keys vs entries on random hat pairs. A case is distinct by its full description; all are non-trivial")
     drv = ctx.driver("drv_c17")
@@ -700,8 +790,8 @@ def run(ctx):
             ctx.corr_break("C17/malformed-line", {"line": line}, {"model": got, "expected": want})
     run_keys(ctx, drv, 6 if not thorough else 40)
     budget = 75 if not thorough else 520
-    plan = (["history"] * 5 + ["twostep"] + ["interp"] * 3 + ["uniform"] * 2 + ["urhs"] * 2)
-    gens = {"history": gen_history, "twostep": gen_twostep, "uniform": gen_uniform, "interp": gen_interp, "urhs": gen_urhs}
+    plan = (["history"] * 5 + ["twostep"] + ["interp"] * 3 + ["uniform"] * 2 + ["urhs"] * 2 + ["samestep"])
+    gens = {"history": gen_history, "twostep": gen_twostep, "uniform": gen_uniform, "interp": gen_interp, "urhs": gen_urhs, "samestep": gen_samestep}
     n = 130 if not thorough else 1700
     k = 0
     while k < n and time.time() - t_run < budget:      # the budget counts from here, not from the Lean build
@@ -711,7 +801,7 @@ def run(ctx):
         ok = RUNNERS[kind](ctx, drv, case)
         ctx.count("kind_" + kind)
         ctx.count("with_classes" if case.get("classes") is not None else "no_classes")
-        ctx.case(case, nontrivial=True, sample={kk: (v if kk not in ("data", "points", "alpha") else "%d items" % len(v)) for kk, v in case.items()} if k <= 3 else None)
+        ctx.case(case, nontrivial=True, sample={kk: (v if kk not in ("data", "points", "alpha", "steps") else "%d items" % len(v)) for kk, v in case.items()} if k <= 3 else None)
         if not ok and (len(ctx.violations) >= ctx.max_reports or len(ctx.corr_breaks) >= 40):
             break
 
